@@ -148,6 +148,8 @@ package tls
 //@   modifies m.pskBinders, ghost(hmacmsg, transcript)
 
 //@ spec isCK(x) = istype(x, *CookieExtension)
+//@ spec isGE(x) = istype(x, *GREASEEncryptedClientHelloExtension)
+//@ spec geOf(x) = x.(*GREASEEncryptedClientHelloExtension)
 //@ spec ksOf(x) = x.(*KeyShareExtension).KeyShares
 //@ spec ckOf(x) = x.(*CookieExtension).Cookie
 
@@ -162,7 +164,7 @@ package tls
 // Frames of uncontracted callees with a whole-heap effect are stated as "assert before / assume after" pairs of the
 // same formula (prng_*, marshal_*, read_*): the callee is assumed not to touch the handshake state named there.
 //@ func (*clientHandshakeStateTLS13).processHelloRetryRequest
-//@   property C17 C12 C33
+//@   property C17 C12 C33 C16
 //@   let c = hs.c
 //@   let ch = hs.hello
 //@   let sh = hs.serverHello
@@ -215,6 +217,8 @@ package tls
 //@   at before call MarshalClientHelloNoECH#0: assert ext_last: !called(newPRNG, 0) ==> (len(uc.Extensions) >= 1 && len(E0) >= 1 && uc.Extensions[len(uc.Extensions)-1] == old(E0[len(E0)-1]))
 //@   at before call MarshalClientHelloNoECH#0: assert ext_last_ins: called(newPRNG, 0) ==> (len(uc.Extensions) >= 1 && len(E0) >= 1 && uc.Extensions[len(uc.Extensions)-1] == old(E0[len(E0)-1]))
 //@   at before call MarshalClientHelloNoECH#0: assert ext_newshare: g != 0 ==> len(ch.keyShares) == 1 && ch.keyShares[0].group == g && ch.keyShares[0].data == callres(Bytes, 0)
+//@   at before call MarshalClientHelloNoECH#0: assert ech_grease_kept: !called(newPRNG, 0) ==> (forall j in 0..len(E0): isGE(E0[j]) && E0[j].(*GREASEEncryptedClientHelloExtension) != nil ==> geOf(uc.Extensions[j]).EncapsulatedKey == old(geOf(E0[j]).EncapsulatedKey) && geOf(uc.Extensions[j]).payload == old(geOf(E0[j]).payload) && geOf(uc.Extensions[j]).configId == old(geOf(E0[j]).configId) && geOf(uc.Extensions[j]).cipherSuite.KdfId == old(geOf(E0[j]).cipherSuite.KdfId) && geOf(uc.Extensions[j]).cipherSuite.AeadId == old(geOf(E0[j]).cipherSuite.AeadId))
+//@   note ech_grease_kept (C16): the GREASE ECH extension goes into the second ClientHello with the same config id, cipher suite, encapsulated key and payload (RFC 9849 6.2: identical bytes after a HelloRetryRequest); stated for the path without cookie insertion (newPRNG has no frame)
 //@   at before call MarshalClientHelloNoECH#0: assert marshal_recv: arg0 == uc && hs.uconn == uc
 //@   at before call newPRNG#0: assert prng_frame: hs.c == c && hs.hello == ch && hs.serverHello == sh && hs.uconn == uc && uc != nil && uc.HandshakeState.Hello != nil && hs.echContext == nil && sh.cookie == cookie && uc.Extensions == E0 && (forall j in 0..len(E0): E0[j] == old(E0[j])) && (exists j in 0..len(E0): isKS(E0[j])) && (forall j in 0..len(E0): !isCK(E0[j])) && (forall j in 0..len(E0): E0[j] != nil && (ispad(E0[j]) ==> E0[j].(*UtlsPaddingExtension) != nil)) && (forall j in 0..len(E0): isKS(E0[j]) ==> ksMap(ch.keyShares, ksOf(E0[j]))) && (g != 0 ==> len(ch.keyShares) == 1 && ch.keyShares[0].group == g && ch.keyShares[0].data == callres(Bytes, 0)) && (g != 0 ==> hs.keyShareKeys != nil && hs.keyShareKeys.curveID == g && hs.keyShareKeys.ecdhe == callarg(PublicKey, 0, 0) && isnil(hs.keyShareKeys.mlkem)) && (g == 0 ==> ch.keyShares == old(ch.keyShares)) && (!isnil(cookie) ==> ch.cookie == cookie)
 //@   at after call newPRNG#0: assume prng_frame: hs.c == c && hs.hello == ch && hs.serverHello == sh && hs.uconn == uc && uc != nil && uc.HandshakeState.Hello != nil && hs.echContext == nil && sh.cookie == cookie && uc.Extensions == E0 && (forall j in 0..len(E0): E0[j] == old(E0[j])) && (exists j in 0..len(E0): isKS(E0[j])) && (forall j in 0..len(E0): !isCK(E0[j])) && (forall j in 0..len(E0): E0[j] != nil && (ispad(E0[j]) ==> E0[j].(*UtlsPaddingExtension) != nil)) && (forall j in 0..len(E0): isKS(E0[j]) ==> ksMap(ch.keyShares, ksOf(E0[j]))) && (g != 0 ==> len(ch.keyShares) == 1 && ch.keyShares[0].group == g && ch.keyShares[0].data == callres(Bytes, 0)) && (g != 0 ==> hs.keyShareKeys != nil && hs.keyShareKeys.curveID == g && hs.keyShareKeys.ecdhe == callarg(PublicKey, 0, 0) && isnil(hs.keyShareKeys.mlkem)) && (g == 0 ==> ch.keyShares == old(ch.keyShares)) && (!isnil(cookie) ==> ch.cookie == cookie)
